@@ -26,6 +26,11 @@ type requestStream struct {
 	totalBytesRead int
 	chunkLeft      int
 	chunkedEOF     bool
+	// requestOwned is set for the stream a Request read from the wire holds
+	// (ContinueReadBodyStream). Whoever else gets to see such a stream - a
+	// response that echoes it, say - must not give it back to the pool: the
+	// request, and the server behind it, still use it.
+	requestOwned bool
 }
 
 // fullyRead reports whether the whole framed body has been consumed, so that
@@ -127,6 +132,7 @@ func releaseRequestStream(rs *requestStream) {
 	rs.totalBytesRead = 0
 	rs.chunkLeft = 0
 	rs.chunkedEOF = false
+	rs.requestOwned = false
 	rs.reader = nil
 	rs.header = nil
 	requestStreamPool.Put(rs)
